@@ -5,7 +5,7 @@
    and therefore never reaches a Panic site (table index out of range, stack underflow at a reduction,
    yyDollar slice/index out of range, loop fuel).
    Instance: [closed the_tables E MD = true] for the tables of the current parser.go, by vm_compute. *)
-From Coq Require Import ZArith List Bool Lia.
+From Coq Require Import ZArith List Bool Lia ZifyBool ZifyNat.
 From Verif Require Import c08.LR c08.LRCheck.
 Import ListNotations.
 Open Scope Z_scope.
@@ -31,11 +31,11 @@ Variable E : list (list Z).
 Variable MD : list Z.
 Hypothesis Hclosed : closed T E MD = true.
 
-Let Hlex : lex_ok T = true.
+Lemma Hlex : lex_ok T = true.
 Proof. unfold closed in Hclosed. apply andb_prop in Hclosed as [H _]. apply andb_prop in H as [H _]. exact H. Qed.
-Let Hmd : md_ok E MD = true.
+Lemma Hmd : md_ok E MD = true.
 Proof. unfold closed in Hclosed. apply andb_prop in Hclosed as [H _]. apply andb_prop in H as [_ H]. exact H. Qed.
-Let Hnodes : forall s, In s (nodes E) -> node_ok T E MD s = true.
+Lemma Hnodes : forall s, In s (nodes E) -> node_ok T E MD s = true.
 Proof. unfold closed in Hclosed. apply andb_prop in Hclosed as [_ H]. apply forallb_forall. exact H. Qed.
 
 (* ---- yylex1 is total and lands in all_tokens ---- *)
@@ -49,7 +49,9 @@ Proof.
   - rewrite app_nil_r in Hsplit. rewrite Hsplit. destruct (zlen pre <? zlen pre) eqn:X; [lia|]. eauto.
   - assert (Hlt : zlen pre <? zlen (tTok3 T) = true).
     { rewrite Hsplit. unfold zlen. rewrite app_length. cbn [length]. lia. }
-    rewrite Hlt. unfold idx at 1. rewrite Hsplit at 1. rewrite zth_app_r. cbn [bind].
+    rewrite Hlt.
+    assert (Hi : idx 4 (tTok3 T) (zlen pre) = Ok a) by (unfold idx; rewrite Hsplit, zth_app_r; reflexivity).
+    rewrite Hi. cbn [bind].
     destruct l as [|b l].
     + cbn in Hok. destruct (a =? char) eqn:X; [lia|].
       assert (Hs2 : tTok3 T = (pre ++ [a]) ++ []) by (rewrite <- app_assoc; exact Hsplit).
@@ -62,8 +64,8 @@ Proof.
     + destruct (a =? char) eqn:X.
       * assert (Hs2 : tTok3 T = (pre ++ [a]) ++ b :: l) by (rewrite <- app_assoc; exact Hsplit).
         assert (Hz : zlen pre + 1 = zlen (pre ++ [a])) by (unfold zlen; rewrite app_length; cbn; lia).
-        unfold idx. rewrite Hz. rewrite Hs2 at 1. rewrite zth_app_r.
-        exists b. split; [reflexivity|]. right. rewrite Hsplit. apply in_or_app. right. right. left. reflexivity.
+        assert (Hi5 : idx 5 (tTok3 T) (zlen pre + 1) = Ok b) by (unfold idx; rewrite Hz, Hs2, zth_app_r; reflexivity).
+        rewrite Hi5. exists b. split; [reflexivity|]. right. rewrite Hsplit. apply in_or_app. right. right. left. reflexivity.
       * assert (Hs2 : tTok3 T = (pre ++ [a; b]) ++ l) by (rewrite <- app_assoc; exact Hsplit).
         assert (Hz : zlen pre + 2 = zlen (pre ++ [a; b])) by (unfold zlen; rewrite app_length; cbn; lia).
         rewrite Hz. cbn [tok3_ok] in Hok.
@@ -80,7 +82,7 @@ Qed.
 
 Lemma yylex1_ok : forall ch, exists t, yylex1 T ch = Ok t /\ In t (all_tokens T).
 Proof.
-  intro ch. unfold lex_ok in Hlex. apply andb_prop in Hlex as [H12 H3]. apply andb_prop in H12 as [H1 H2].
+  intro ch. pose proof Hlex as Hl0. unfold lex_ok in Hl0. apply andb_prop in Hl0 as [H12 H3]. apply andb_prop in H12 as [H1 H2].
   apply Z.leb_le in H1. apply Z.leb_le in H2.
   destruct (zth_some (tTok2 T) 1 ltac:(lia)) as [u Hu].
   assert (Hfin : forall token, In token (tTok1 T) \/ In token (tTok2 T) \/ In token (tTok3 T) \/ token = 0 ->
@@ -144,7 +146,7 @@ Proof. intros q p r H. cbn in H. tauto. Qed.
 Lemma md_edge : forall p q, inE E p q = true -> md MD q <= md MD p + 1.
 Proof.
   intros p q H. pose proof (inE_In _ _ H) as [_ [Hp Hl]].
-  unfold md_ok in Hmd. apply andb_prop in Hmd as [_ Hm]. rewrite forallb_forall in Hm.
+  pose proof Hmd as Hmd0. unfold md_ok in Hmd0. apply andb_prop in Hmd0 as [_ Hm]. rewrite forallb_forall in Hm.
   assert (Hs : In p (states E)).
   { unfold states. apply in_map_iff. exists (Z.to_nat p). split; [lia|]. apply in_seq. lia. }
   specialize (Hm p Hs). rewrite forallb_forall in Hm.
@@ -156,7 +158,7 @@ Lemma md_depth : forall s, chain s -> forall q rest, s = q :: rest -> md MD q <=
 Proof.
   induction s as [|q0 rest0 IH]; intros H q rest Heq; [destruct H|].
   injection Heq as -> ->. destruct rest as [|p r].
-  - cbn in H. subst q. unfold md_ok in Hmd. apply andb_prop in Hmd as [H0 _]. apply Z.leb_le in H0. cbn. exact H0.
+  - cbn in H. subst q. pose proof Hmd as Hmd0. unfold md_ok in Hmd0. apply andb_prop in Hmd0 as [H0 _]. apply Z.leb_le in H0. cbn. exact H0.
   - destruct H as [He Hc]. specialize (IH Hc p r eq_refl). pose proof (md_edge _ _ He).
     unfold zlen in *. cbn [length]. lia.
 Qed.
